@@ -51,7 +51,7 @@ LEVEL_TEXT = ("Sampled layouts x all option subsets on real trees; safety is "
 LEVEL_NOTE = ("Completeness (everything requested is deleted) is not part of "
               "the statement and is only used for the non-triviality labels; "
               "gitignore semantics are modelled for slash-free patterns only.")
-REGISTERED = False
+REGISTERED = True
 NONTRIVIAL_FLOOR = {"quick": 100, "thorough": 3000}
 
 NAMES = ["a", "b", "n", "x.tmp", "y~", "z.o", "ig", "c.THIS", "d.BASE", "é",
@@ -106,6 +106,12 @@ def gen_case(draw, fmt="2a", f9=False, linkdir=False, foreign=False):
                     targets = dir_targets
                 else:
                     targets = targets + dir_targets
+                if git and versioned:
+                    # git's add follows a link to a nested repository and
+                    # wants to record a tree reference: keep versioned links
+                    # away from sibling names
+                    targets = ["nowhere", up + "canary/cfile",
+                               up + "canary/cdir"]
                 entries.append([path, "symlink", versioned,
                                 draw(st.sampled_from(targets))])
             else:
